@@ -420,6 +420,9 @@ func (m *Machine) intrinsic(s *State, f *Frame, x *ssa.Call, name string, callee
 			return nil, true
 		}
 		r, _ := c.Check(append(append([]*Term(nil), s.pc...), neg), nil)
+		if m.xcheckEvery > 0 && (r == "sat" || r == "unsat") && m.assertsChecked%m.xcheckEvery == 0 && c.xcheck.sampled < m.xcheckMax {
+			c.CrossCheck(append(append([]*Term(nil), s.pc...), neg), r, m.xcheckDir, fmt.Sprintf("%s-%d", m.xcheckTag, m.assertsChecked))
+		}
 		if r == "sat" {
 			bad := s.clone()
 			bad.pc = append(bad.pc, neg)
